@@ -31,18 +31,6 @@ theorem Pointwise.spec {α β : Type} {R : α → β → Prop} {l : List α} {l'
 
 /-! ### nodes -/
 
-theorem mem_place (ns : List Node) (nd x : Node) (h : x ∈ place ns nd) : x = nd ∨ x ∈ ns := by
-  unfold place at h
-  split at h
-  · rcases List.mem_cons.1 h with h | h
-    · exact Or.inl h
-    · exact Or.inr h
-  · split at h
-    · exact Or.inr h
-    · rcases List.mem_cons.1 h with h | h
-      · exact Or.inl h
-      · exact Or.inr (List.mem_filter.1 h).1
-
 theorem findNode_mem (n : Text) (ns : List Node) (nd : Node) (h : findNode n ns = some nd) : nd ∈ ns := by
   induction ns with
   | nil => simp [findNode] at h
@@ -52,54 +40,190 @@ theorem findNode_mem (n : Text) (ns : List Node) (nd : Node) (h : findNode n ns 
     · cases h; exact List.mem_cons_self
     · exact List.mem_cons_of_mem _ (ih h)
 
-/-- a node that holds file content was created from a regular entry of the data section that carries a record;
-it reads by that entry's name, `own` is that entry's body and `sum` its record -/
-def NodeOk (es : List Entry) (nd : Node) : Prop :=
-  nd.isLink = false →
-    ∃ e ∈ es, e.kind = .reg ∧ e.name = nd.teName ∧ e.body = nd.own ∧ e.recorded = .sum nd.sum
+theorem findNode_filter_ne (n m : Text) (ns : List Node) (h : n ≠ m) :
+    findNode n (ns.filter (fun x => x.name ≠ m)) = findNode n ns := by
+  induction ns with
+  | nil => rfl
+  | cons a r ih =>
+    by_cases ha : a.name = m
+    · have : (a :: r).filter (fun x => x.name ≠ m) = r.filter (fun x => x.name ≠ m) := by simp [List.filter, ha]
+      rw [this, ih]
+      simp only [findNode]
+      rw [if_neg]
+      rw [ha]; exact fun x => h x.symm
+    · have : (a :: r).filter (fun x => x.name ≠ m) = a :: r.filter (fun x => x.name ≠ m) := by simp [List.filter, ha]
+      rw [this]
+      simp only [findNode]
+      rw [ih]
 
-theorem writeEntry_nodeOk (es : List Entry) (ns ns' : List Node) (e : Entry) (he : e ∈ es)
-    (hinv : ∀ nd ∈ ns, NodeOk es nd) (h : writeEntry ns e = some ns') : ∀ nd ∈ ns', NodeOk es nd := by
+/-- `place` only touches the name of the node it places -/
+theorem findNode_place_other (ns : List Node) (nd : Node) (n : Text) (h : n ≠ nd.name) :
+    findNode n (place ns nd) = findNode n ns := by
+  have h' : ¬ nd.name = n := fun x => h x.symm
+  unfold place
+  split
+  · simp only [findNode, if_neg h']
+  · split
+    · rfl
+    · simp only [findNode, if_neg h']
+      exact findNode_filter_ne n nd.name ns h
+
+/-- `WriteHeader` of an entry only touches the node of that entry's name -/
+theorem findNode_writeEntry_other (ns ns1 : List Node) (x : Entry) (n : Text) (h : writeEntry ns x = some ns1)
+    (hn : n ≠ x.name) : findNode n ns1 = findNode n ns := by
+  have hn' : ¬ x.name = n := fun e => hn e.symm
+  unfold writeEntry at h
+  split at h
+  · split at h
+    · split at h
+      · cases h; rfl
+      · cases h
+    · cases h; rfl
+  · cases h; exact findNode_place_other ns _ n hn
+  · split at h
+    · split at h
+      · cases h; rfl
+      · cases h; exact findNode_place_other ns _ n hn
+    · cases h; exact findNode_place_other ns _ n hn
+  · split at h
+    · split at h
+      · cases h
+      · cases h
+        simp only [findNode, if_neg hn']
+    · cases h
+  · cases h
+
+/-- a node that holds file content was created from a regular entry `e` of the data section that carries a record;
+it reads by that entry's name, `own` is that entry's body and `sum` its record; NO entry processed after `e` has
+that name; and the name is (still) the name of a file node -/
+def NodeInv (done : List Entry) (ns : List Node) (nd : Node) : Prop :=
+  nd.isLink = false →
+    ∃ pre e post, done = pre ++ e :: post ∧ e.kind = .reg ∧ e.name = nd.teName ∧ e.body = nd.own ∧
+      e.recorded = .sum nd.sum ∧ (∀ x ∈ post, x.name ≠ nd.teName) ∧
+      ∃ ex, findNode nd.teName ns = some ex ∧ ex.isLink = false
+
+/-- two non-directory entries at different positions of a data section with distinct non-directory names -/
+theorem names_sep (pre post rest : List Entry) (e x : Entry)
+    (hn : namesNodup (pre ++ e :: post ++ x :: rest) = true) (he : e.kind ≠ .dir) (hx : x.kind ≠ .dir) :
+    e.name ≠ x.name := by
+  simp only [namesNodup, decide_eq_true_eq] at hn
+  have he' : decide (e.kind ≠ .dir) = true := by simpa using he
+  have hx' : decide (x.kind ≠ .dir) = true := by simpa using hx
+  simp only [List.append_assoc, List.cons_append, List.filter_append, List.filter_cons, he', hx', if_true,
+    List.map_append, List.map_cons] at hn
+  have h2 := (List.nodup_append.1 hn).2.1
+  have h3 := (List.nodup_cons.1 h2).1
+  intro heq
+  apply h3
+  rw [heq]
+  simp
+
+/-- one `WriteHeader`: the invariant moves from the entries processed so far to those plus the new one -/
+theorem writeEntry_inv (done rest : List Entry) (x : Entry) (ns ns1 : List Node)
+    (hn : namesNodup (done ++ x :: rest) = true)
+    (hinv : ∀ nd ∈ ns, NodeInv done ns nd) (h : writeEntry ns x = some ns1) :
+    ∀ nd ∈ ns1, NodeInv (done ++ [x]) ns1 nd := by
+  -- the new entry does not take the name any existing file node reads by
+  have hfresh : ∀ nd ∈ ns, nd.isLink = false → x.name ≠ nd.teName := by
+    intro nd hnd hl heq
+    obtain ⟨pre, e, post, hd, hk, hname, _, _, _, ex, hex, hexl⟩ := hinv nd hnd hl
+    by_cases hxd : x.kind = .dir
+    · -- a directory over the name of a file node: `WriteHeader` fails
+      unfold writeEntry at h
+      rw [hxd] at h
+      simp only at h
+      rw [heq, hex] at h
+      simp [hexl] at h
+    · -- a second non-directory entry of that name: excluded by `namesNodup`
+      rw [hd] at hn
+      have := names_sep pre post rest e x (by simpa [List.append_assoc] using hn) (by rw [hk]; decide) hxd
+      exact this (by rw [hname, heq])
+  -- an old node keeps its invariant
+  have hold : ∀ nd ∈ ns, nd ∈ ns1 → NodeInv (done ++ [x]) ns1 nd := by
+    intro nd hnd _ hl
+    obtain ⟨pre, e, post, hd, hk, hname, hbody, hrec, hpost, ex, hex, hexl⟩ := hinv nd hnd hl
+    have hne := hfresh nd hnd hl
+    refine ⟨pre, e, post ++ [x], by rw [hd]; simp, hk, hname, hbody, hrec, ?_, ex, ?_, hexl⟩
+    · intro y hy
+      rcases List.mem_append.1 hy with hy | hy
+      · exact hpost y hy
+      · rw [List.mem_singleton.1 hy]; exact hne
+    · rw [findNode_writeEntry_other ns ns1 x nd.teName h (fun e => hne e.symm)]; exact hex
+  -- a regular entry that was placed: the invariant of its node
+  have hnewReg : ∀ d, x.kind = .reg → x.recorded = .sum d → ∀ (tl : List Node),
+      NodeInv (done ++ [x]) ({ name := x.name, teName := x.name, sum := d, own := x.body, isLink := false, link := [] } :: tl)
+        { name := x.name, teName := x.name, sum := d, own := x.body, isLink := false, link := [] } := by
+    intro d hk hr tl _
+    refine ⟨done, x, [], rfl, hk, rfl, rfl, hr, ?_, ?_⟩
+    · intro y hy; cases hy
+    · exact ⟨{ name := x.name, teName := x.name, sum := d, own := x.body, isLink := false, link := [] },
+        by simp [findNode], rfl⟩
+  have hplace : ∀ (nd0 : Node), (nd0.isLink = false → ∀ tl, NodeInv (done ++ [x]) (nd0 :: tl) nd0) →
+      place ns nd0 = ns1 → ∀ nd ∈ ns1, NodeInv (done ++ [x]) ns1 nd := by
+    intro nd0 hnd0 hres nd hmem
+    unfold place at hres
+    cases hf : findNode nd0.name ns with
+    | none =>
+      rw [hf] at hres
+      simp only at hres
+      subst hres
+      rcases List.mem_cons.1 hmem with rfl | hm
+      · intro hl; exact hnd0 hl ns hl
+      · exact hold nd hm hmem
+    | some ex =>
+      rw [hf] at hres
+      simp only at hres
+      by_cases hs : ex.sum = nd0.sum
+      · rw [if_pos hs] at hres; subst hres; exact hold nd hmem hmem
+      · rw [if_neg hs] at hres
+        subst hres
+        rcases List.mem_cons.1 hmem with rfl | hm
+        · intro hl; exact hnd0 hl _ hl
+        · exact hold nd (List.mem_filter.1 hm).1 hmem
+  intro nd hmem
+  have h0 := h
   unfold writeEntry at h
   split at h
   · -- directory
-    cases h; exact hinv
-  · -- regular file with a record
-    next hk hr =>
-    cases h
-    intro nd hnd
-    rcases mem_place _ _ _ hnd with rfl | hnd
-    · intro _; exact ⟨e, he, hk, rfl, rfl, hr⟩
-    · exact hinv nd hnd
-  · -- symlink with a record
-    next hk hr =>
-    have hnew : ∀ d, NodeOk es { name := e.name, teName := e.name, sum := d, own := e.body, isLink := true, link := e.link } := by
-      intro d hl; cases hl
     split at h
     · split at h
-      · cases h; exact hinv
+      · cases h; exact hold nd hmem hmem
       · cases h
-        intro nd hnd
-        rcases mem_place _ _ _ hnd with rfl | hnd
-        · exact hnew _
-        · exact hinv nd hnd
-    · cases h
-      intro nd hnd
-      rcases mem_place _ _ _ hnd with rfl | hnd
-      · exact hnew _
-      · exact hinv nd hnd
+    · cases h; exact hold nd hmem hmem
+  · -- regular file with a record
+    next hk hr =>
+    simp only [Option.some.injEq] at h
+    exact hplace _ (fun _ tl => hnewReg _ hk hr tl) h nd hmem
+  · -- symlink with a record: a link node needs nothing
+    have hlink : ∀ (nd0 : Node), nd0.isLink = true → nd0.isLink = false → ∀ tl, NodeInv (done ++ [x]) (nd0 :: tl) nd0 := by
+      intro nd0 h1 h2; rw [h1] at h2; cases h2
+    split at h
+    · split at h
+      · cases h; exact hold nd hmem hmem
+      · simp only [Option.some.injEq] at h; exact hplace _ (hlink _ rfl) h nd hmem
+    · simp only [Option.some.injEq] at h; exact hplace _ (hlink _ rfl) h nd hmem
   · -- hard link: a second name for an existing file node
     split at h
-    · next t ht _ =>
+    · next t ht hnone =>
       split at h
       · cases h
-      · cases h
-        intro nd hnd
-        rcases List.mem_cons.1 hnd with rfl | hnd
-        · have := hinv t (findNode_mem _ _ _ ht)
-          intro hl
-          exact this hl
-        · exact hinv nd hnd
+      · next htl =>
+        cases h
+        rcases List.mem_cons.1 hmem with rfl | hmem'
+        · have htl' : t.isLink = false := by simpa using htl
+          have htm := findNode_mem _ _ _ ht
+          intro _
+          obtain ⟨pre, e, post, hd, hk, hname, hbody, hrec, hpost, ex, hex, hexl⟩ := hinv t htm htl'
+          have hne := hfresh t htm htl'
+          refine ⟨pre, e, post ++ [x], by rw [hd]; simp, hk, hname, hbody, hrec, ?_, ex, ?_, hexl⟩
+          · intro y hy
+            rcases List.mem_append.1 hy with hy | hy
+            · exact hpost y hy
+            · rw [List.mem_singleton.1 hy]; exact hne
+          · show findNode t.teName ({ t with name := x.name, alias := true } :: ns) = some ex
+            simp only [findNode, if_neg hne]
+            exact hex
+        · exact hold nd hmem' hmem
     · cases h
   · cases h
 
@@ -108,67 +232,78 @@ theorem writeEntry_writable (ns ns' : List Node) (e : Entry) (h : writeEntry ns 
   unfold writable
   cases hk : e.kind <;> cases hr : e.recorded <;> simp [hk, hr] at h ⊢
 
-theorem installNodes_spec (es : List Entry) (l : List Entry) (ns ns' : List Node) (hl : ∀ e ∈ l, e ∈ es)
-    (hinv : ∀ nd ∈ ns, NodeOk es nd) (h : installNodes ns l = some ns') :
-    (∀ nd ∈ ns', NodeOk es nd) ∧ l.all writable = true := by
+theorem installNodes_writable (l : List Entry) (ns ns' : List Node) (h : installNodes ns l = some ns') :
+    l.all writable = true := by
   induction l generalizing ns with
-  | nil => simp only [installNodes] at h; cases h; exact ⟨hinv, rfl⟩
+  | nil => rfl
   | cons e r ih =>
     simp only [installNodes] at h
     split at h
     · cases h
     · next ns1 hw =>
-      have h1 := writeEntry_nodeOk es ns ns1 e (hl e List.mem_cons_self) hinv hw
-      obtain ⟨h2, h3⟩ := ih ns1 (fun x hx => hl x (List.mem_cons_of_mem _ hx)) h1 h
-      refine ⟨h2, ?_⟩
       simp only [List.all_cons, Bool.and_eq_true]
-      exact ⟨writeEntry_writable ns ns1 e hw, h3⟩
+      exact ⟨writeEntry_writable ns ns1 e hw, ih ns1 h⟩
 
-/-- whatever `rejectDup` is: the nodes come from regular entries with a record, and the old necessary condition
-(`installFiles`: every installable entry is representable and recorded) holds -/
-theorem install_spec (rd : Bool) (es : List Entry) (ns : List Node) (h : install rd es = some ns) :
-    (∀ nd ∈ ns, NodeOk es nd) ∧ installFiles es = true ∧ (rd = true → namesNodup es = true) := by
+theorem installNodes_inv (es : List Entry) (hn : namesNodup es = true) (l done : List Entry) (ns ns' : List Node)
+    (hes : es = done ++ l) (hinv : ∀ nd ∈ ns, NodeInv done ns nd) (h : installNodes ns l = some ns') :
+    ∀ nd ∈ ns', NodeInv es ns' nd := by
+  induction l generalizing done ns with
+  | nil =>
+    simp only [installNodes] at h
+    cases h
+    rw [hes, List.append_nil]
+    exact hinv
+  | cons x r ih =>
+    simp only [installNodes] at h
+    split at h
+    · cases h
+    · next ns1 hw =>
+      have h1 := writeEntry_inv done r x ns ns1 (by rw [← hes]; exact hn) hinv hw
+      exact ih (done ++ [x]) ns1 (by rw [hes]; simp) h1 h
+
+/-- whatever `rejectDup` is: the old necessary condition (`installFiles`: every installable entry is representable
+and recorded) holds -/
+theorem install_writable (rd : Bool) (es : List Entry) (ns : List Node) (h : install rd es = some ns) :
+    installFiles es = true := by
+  unfold install at h
+  split at h
+  · cases h
+  · exact installNodes_writable (installable es) [] ns h
+
+/-- the repaired installer: non-directory names are distinct and every node satisfies the invariant for the WHOLE
+data section -/
+theorem install_spec (es : List Entry) (ns : List Node) (h : install true es = some ns) :
+    namesNodup es = true ∧ ∀ nd ∈ ns, NodeInv es ns nd := by
   unfold install at h
   split at h
   · cases h
   · next hc =>
-    have hsub : ∀ e ∈ installable es, e ∈ es := fun e he => (List.dropWhile_suffix hidden).subset he
-    obtain ⟨h1, h2⟩ := installNodes_spec es (installable es) [] ns hsub (by intro nd hnd; cases hnd) h
-    refine ⟨h1, h2, ?_⟩
-    intro hrd
-    subst hrd
-    cases hn : namesNodup es with
-    | true => rfl
-    | false => simp [hn] at hc
+    have hn : namesNodup es = true := by
+      cases hnn : namesNodup es with
+      | true => rfl
+      | false => simp [hnn] at hc
+    refine ⟨hn, ?_⟩
+    have hes : es = es.takeWhile hidden ++ installable es := by
+      unfold installable; exact (List.takeWhile_append_dropWhile (p := hidden) (l := es)).symm
+    exact installNodes_inv es hn (installable es) (es.takeWhile hidden) [] ns hes (by intro nd hnd; cases hnd) h
 
 /-! ### the lazy tar FS -/
 
-theorem find_reverse_of_nodup (es : List Entry) (e : Entry) (hn : (es.map (·.name)).Nodup) (he : e ∈ es) :
-    es.reverse.find? (fun x => x.name = e.name) = some e := by
-  induction es with
-  | nil => cases he
-  | cons a r ih =>
-    simp only [List.map_cons, List.nodup_cons] at hn
-    rw [List.reverse_cons, List.find?_append]
-    rcases List.mem_cons.1 he with rfl | her
-    · -- `e` is the head: nothing in the tail has its name
-      have : r.reverse.find? (fun x => x.name = e.name) = none := by
-        rw [List.find?_eq_none]
-        intro x hx hxe
-        have hxr : x ∈ r := List.mem_reverse.1 hx
-        exact hn.1 (List.mem_map.2 ⟨x, hxr, by simpa using hxe⟩)
-      rw [this]
-      simp [List.find?]
-    · rw [ih hn.2 her]; rfl
-
-theorem tarLookup_of_nodup (es : List Entry) (e : Entry) (hn : namesNodup es = true) (he : e ∈ es) :
-    tarLookup es e.name = some e := by
+/-- an entry after which nothing has its name is what the index holds for that name -/
+theorem tarLookup_last (pre post : List Entry) (e : Entry) (hpost : ∀ x ∈ post, x.name ≠ e.name) :
+    tarLookup (pre ++ e :: post) e.name = some e := by
   unfold tarLookup
-  exact find_reverse_of_nodup es e (by simpa [namesNodup] using hn) he
+  rw [List.reverse_append, List.reverse_cons, List.append_assoc, List.find?_append]
+  have : post.reverse.find? (fun x => x.name = e.name) = none := by
+    rw [List.find?_eq_none]
+    intro x hx
+    simpa using hpost x (List.mem_reverse.1 hx)
+  rw [this]
+  simp
 
-/-- with distinct names the by-name read of a regular entry yields that very entry's body -/
-theorem tarOpen_of_nodup (es : List Entry) (e : Entry) (hn : namesNodup es = true) (he : e ∈ es) (hk : e.kind = .reg)
-    (fuel : Nat) : tarOpen es (fuel + 1) e.name = some e.body := by
-  simp only [tarOpen, tarLookup_of_nodup es e hn he, hk]
+/-- … and the by-name read of a regular one yields that very entry's body -/
+theorem tarOpen_last (pre post : List Entry) (e : Entry) (hpost : ∀ x ∈ post, x.name ≠ e.name) (hk : e.kind = .reg)
+    (fuel : Nat) : tarOpen (pre ++ e :: post) (fuel + 1) e.name = some e.body := by
+  simp only [tarOpen, tarLookup_last pre post e hpost, hk]
 
 end Apko.C05
